@@ -254,7 +254,14 @@ func (g *DefaultValidator) validateResumePolicy(resume experimentsv1beta1.Resume
 
 func (g *DefaultValidator) validateParameters(parameters []experimentsv1beta1.ParameterSpec) field.ErrorList {
 	var allErrs field.ErrorList
+	parameterNames := make(map[string]bool)
 	for i, param := range parameters {
+
+		// Check if parameter names are not duplicated
+		if _, ok := parameterNames[param.Name]; ok {
+			allErrs = append(allErrs, field.Duplicate(parametersPath.Index(i).Child("name"), param.Name))
+		}
+		parameterNames[param.Name] = true
 
 		if param.ParameterType != experimentsv1beta1.ParameterTypeInt &&
 			param.ParameterType != experimentsv1beta1.ParameterTypeDouble &&
